@@ -669,8 +669,40 @@ def entry_cases(tier):
                     cases.append({"part": "entry", "ep": "dupname", "det": "ccd", "key": "dup.arguments.i",
                                   "kcls": "valid" if target == "enabled-one" else "disabled-model", "exec": ex,
                                   "mode": mode, "disabled": which_disabled, "aim": target})
+    # the same TEXT assigned to several settings (two keys of one processor / the same key of independent processors), one
+    # of them modified afterwards (deeper key, or a model that mutates its list argument): the other settings, and a
+    # later conversion of the same text, must still hold what the text denotes
+    for text in ("ld", "v"):
+        for where in ("two-keys", "two-processors"):
+            for mod in (("deeper-key", "mutating-model") if text == "ld" else ("item-key", "mutating-model")):
+                cases.append({"part": "entry", "ep": "textalias", "det": "ccd", "key": "pipeline.photon_collection.p1.arguments." + text,
+                              "kcls": "valid", "text": text, "where": where, "mod": mod})
+    # override keys that address the running mode ('exposure.readout.non_destructive', ...): valid ones and every
+    # mechanically derived misspelling / truncation of one component
+    for rm in ("exposure", "observation"):
+        for key, val in MODE_KEYS:
+            cases.append({"part": "entry", "ep": "modekey", "det": "ccd", "key": f"{rm}.{key}", "kcls": "valid",
+                          "value": val, "rm": rm})
+            comps = key.split(".")
+            seen_bad = set()
+            for ci in range(len(comps)):
+                for how in ("drop-last-char", "swap", "double", "upper"):
+                    c2 = list(comps)
+                    w = comps[ci]
+                    c2[ci] = {"drop-last-char": w[:-1], "swap": w[1] + w[0] + w[2:], "double": w + w[-1],
+                              "upper": w.capitalize()}[how]
+                    k2 = ".".join(c2)
+                    if k2 == key or k2 in seen_bad or not c2[ci]:
+                        continue
+                    seen_bad.add(k2)
+                    cases.append({"part": "entry", "ep": "modekey", "det": "ccd", "key": f"{rm}.{k2}",
+                                  "kcls": f"misspelt-component-{min(ci, 1) if ci < len(comps) - 1 else 'last'}",
+                                  "value": val, "rm": rm})
     for c in cases:
-        if c["ep"] in ("dupname", "nested", "rerun"):
+        if c["ep"] == "modekey":
+            c["target"] = "running-mode"
+            continue
+        if c["ep"] in ("dupname", "nested", "rerun", "textalias"):
             c["target"] = "model-argument"
             continue
         src = c["key"] if c["kcls"] in ("valid", "disabled-model") else next(
@@ -678,6 +710,117 @@ def entry_cases(tier):
         c["target"] = ("detector-field" if src.startswith("detector.") else
                        "enabled-flag" if src.endswith(".enabled") else "model-argument")
     return cases
+
+
+def _mutate_args(detector, ld=None, v=None, i=0):
+    """probe model that modifies its mutable arguments in place (as real models may)"""
+    if ld:
+        ld[0]["k"] = 1000
+        ld.append({"k": 3})
+    if v:
+        v[0] = 1000
+        v.append(5)
+
+
+def _run_textalias(case, bad):
+    import pyxel
+    from pyxel.pipelines import Processor
+
+    texts = {"ld": "[{'k': 1}, {'k': 2}]", "v": "[10.0, 20.0]"}
+    t = case["text"]
+    text = texts[t]
+    want = ast.literal_eval(text)
+
+    def fresh():
+        func = "props.c08_dotted_keys._mutate_args" if case["mod"] == "mutating-model" else "vp.cprobes.plain"
+        pipe = mk.pipeline({"photon_collection": [(func, "p1", {"ld": [{"k": 7}], "v": [7.0], "i": 1}, True)],
+                            "charge_generation": [("vp.cprobes.plain", "q1", {"ld": [{"k": 8}], "v": [8.0], "i": 2}, True)]})
+        return Processor(make_detector("ccd"), pipe)
+
+    k1 = "pipeline.photon_collection.p1.arguments." + t
+    k2 = "pipeline.charge_generation.q1.arguments." + t
+    a = fresh()
+    a.set(k1, text)
+    if case["where"] == "two-keys":
+        b, kb = a, k2
+    else:
+        b, kb = fresh(), k1
+    b.set(kb, text)
+    if not same(b.get(kb), want):
+        bad("wrong-value", f"after set({kb!r}, {text!r}) get returns {show(b.get(kb))}")
+        return ["wrong-value"]
+    if case["mod"] == "deeper-key":
+        a.set(k1 + ".0.k", 99)
+    elif case["mod"] == "item-key":
+        a.get(k1)[0] = 99.0                      # the list the user's processor holds, changed by the user
+    else:
+        pyxel.run_mode(mk.exposure([1.0]), a.detector, a.pipeline)
+    other = b.get(kb)
+    if not same(other, want):
+        bad("assignment-changed-other-setting", f"{text!r} was assigned to {k1!r} and to {kb!r} ({case['where']}); after "
+            f"{case['mod']} on the first, the second holds {show(other)} instead of {show(want)}", where=case["where"], mod=case["mod"])
+    c = fresh()
+    c.set(k1, text)
+    if not same(c.get(k1), want):
+        bad("text-conversion-stale", f"a later set({k1!r}, {text!r}) on a fresh processor gives {show(c.get(k1))} instead of "
+            f"{show(want)}", where=case["where"], mod=case["mod"])
+    return ["ok", case["where"], case["mod"]]
+
+
+MODE_KEYS = [("readout.non_destructive", True), ("readout.times", [1.0, 2.0, 3.0]), ("readout.start_time", 0.5),
+             ("pipeline_seed", 77), ("outputs.custom_dir_name", "foo_")]
+
+
+def _run_modekey(case, det, pipe, bad):
+    """override keys addressed to the running mode"""
+    import pyxel
+    from pyxel.observation import Observation, ParameterValues
+    from pyxel.outputs import ExposureOutputs, ObservationOutputs
+
+    key, val, valid = case["key"], case["value"], case["kcls"] == "valid"
+    tmp = tempfile.mkdtemp(prefix="vp_c08m_")
+    try:
+        if case["rm"] == "exposure":
+            mode = mk.exposure([1.0, 2.0], outputs=ExposureOutputs(output_folder=tmp, save_data_to_file=[{"detector.pixel.array": ["npy"]}]))
+            nruns = 1
+        else:
+            mode = Observation(parameters=[ParameterValues(key="detector.environment.temperature", values=[100, 200])],
+                               readout=mk.readout([1.0, 2.0]), with_dask=False,
+                               outputs=ObservationOutputs(output_folder=tmp, save_data_to_file=[{"detector.pixel.array": ["npy"]}]))
+            nruns = 2
+        before = snapshot.snapshot([mode.readout, mode.outputs, mode.pipeline_seed])
+        exc = None
+        try:
+            pyxel.run_mode(mode, det, pipe, override_dct={key: val}, with_inherited_coords=True)
+        except Exception as e:  # noqa: BLE001
+            exc = e
+        trace = list(probes.TRACE)
+        if not valid:
+            if exc is None:
+                d = snapshot.diff(before, snapshot.snapshot([mode.readout, mode.outputs, mode.pipeline_seed]))
+                bad("invalid-accepted", f"override {key}={val!r} raised nothing; {len(trace)} model call(s) ran; running-mode "
+                    f"objects changed: {snapshot.fmt(d, 3) if d else 'nothing'}")
+            elif trace:
+                bad("rejected-after-running", f"override raised {type(exc).__name__} only after {len(trace)} model call(s)")
+            return ["invalid", type(exc).__name__ if exc else None, len(trace)]
+        if exc is not None:
+            bad("valid-refused", f"override {key}={val!r} raised {type(exc).__name__}: {str(exc)[:200]}")
+            return ["valid-refused", type(exc).__name__]
+        sub = key.split(".", 1)[1]
+        obj = mode
+        for part in sub.split("."):
+            obj = getattr(obj, part)
+        got = obj.tolist() if hasattr(obj, "tolist") else obj
+        if not same(got, val):
+            bad("wrong-value", f"after override {key}={val!r} the running mode holds {show(got)}")
+        steps = 3 if sub == "readout.times" else 2
+        nmodels = len({t["name"] for t in trace}) or 1
+        if len(trace) != nruns * steps * nmodels:
+            bad("wrong-models-ran", f"{len(trace)} model calls after override {key}={val!r}, expected {nruns} run(s) x {steps} "
+                f"step(s) x {nmodels} model(s)")
+        return ["ran", len(trace)]
+    finally:
+        shutil.rmtree(tmp, ignore_errors=True)
 
 
 def _sweep_values(proc, key):
@@ -744,6 +887,10 @@ def run_entry(case):
     try:
         if ep in ("nested", "rerun"):
             outcome = _run_nested(case, det, pipe, before, bad)
+        elif ep == "modekey":
+            outcome = _run_modekey(case, det, pipe, bad)
+        elif ep == "textalias":
+            outcome = _run_textalias(case, bad)
         elif ep == "dupname":
             outcome = _run_sweep(case, det, pipe, before, bad)
         elif ep == "override":
